@@ -57,6 +57,16 @@ func (r *Result) Violate(kind, sig, detail string, replay any) {
 	r.Violations = append(r.Violations, Violation{Kind: kind, Signature: sig, Detail: detail, Replay: jsonSafe(replay)})
 }
 
+// HasKind reports whether a violation of that kind has been recorded.
+func (r *Result) HasKind(kind string) bool {
+	for _, v := range r.Violations {
+		if v.Kind == kind {
+			return true
+		}
+	}
+	return false
+}
+
 // jsonSafe makes a replay payload encodable: encoding/json refuses NaN and the infinities, so a
 // non-finite float becomes its bit pattern as a string.
 func jsonSafe(v any) any {
